@@ -3,9 +3,12 @@
 package signaling
 
 import (
+	"encoding/base64"
+	"encoding/hex"
 	"fmt"
 	"io"
 	"log"
+	"net/url"
 	"os"
 	"runtime"
 	"sort"
@@ -48,6 +51,28 @@ func (t c20Target) subject() string {
 		return GetSubjectForUserId(t.Id, t.backend())
 	}
 	return GetSubjectForSessionId(t.Id, t.backend())
+}
+
+// what the property calls the subject: kind + id + backend (nil and the compat backend are
+// the same; a session subject has no backend)
+func (t c20Target) identity() string {
+	b := t.B
+	if b == "!compat" || t.K == 3 {
+		b = ""
+	}
+	return fmt.Sprintf("%d\x00%s\x00%s", t.K, t.Id, b)
+}
+
+// inside the side condition of C20_subject_inj (wf_target): no separator in the part after
+// the separator -- the backend id, or the whole id when there is no backend
+func (t c20Target) wf() bool {
+	if t.K == 3 {
+		return true
+	}
+	if t.B == "" || t.B == "!compat" {
+		return !strings.Contains(t.Id, "|")
+	}
+	return !strings.Contains(t.B, "|")
 }
 
 var c20KindNames = []string{"KBackendRoom", "KRoom", "KUser", "KSession"}
@@ -790,7 +815,11 @@ func c20GenTargets(r *vrng, n int, good bool) []c20Target {
 		if subj := t.subject(); good && (strings.HasSuffix(subj, ".") || strings.Contains(subj, " ")) {
 			continue // Subscribe would refuse it
 		}
-		s := fmt.Sprintf("%d|%s", t.K, t.subject())
+		// by what the property calls the subject (kind, id, backend), NOT by the string the
+		// implementation computes for it: two different ids the implementation maps to one
+		// string must both stay in the table (for the ids of this generator -- all inside the
+		// side condition of C20_subject_inj -- the two coincide on the unchanged tree)
+		s := t.identity()
 		if seen[s] {
 			continue
 		}
@@ -1102,6 +1131,241 @@ func c20GenConc(r *vrng, id int) *c20Case {
 	return c
 }
 
+// ---- the collision pool -----------------------------------------------------------------------
+//
+// "receives nothing published to other subjects" depends on the function from what the property
+// calls a subject (kind, id, backend) to the string the bus subscribes to being injective.  Ids
+// drawn independently of that function never collide under any plausible variant of it; the pool
+// is built FOR collisions: every id comes with the texts an encoding step could turn it into, as
+// ids of their own.
+//
+//   family of a base id x:
+//     level 1:  x,  x + "|" + b for the named backends b (what GetSubjectFor*Id hands to the
+//               encoder for (x, b); as an id of its own it is inside the side condition of
+//               C20_subject_inj with a named backend and the region of the known finding
+//               C20/subject/pipe-collision with a nil/compat backend: only the former is used)
+//     level 2:  for every level-1 text y its derivations: base64 (standard and URL-safe
+//               alphabet, with and without padding), hex (lower / upper), y with each of the
+//               characters a subject cannot carry (blank . | * >) replaced by '_' / '-' or
+//               dropped, lower case, upper case, query- and path-escaped
+//   cluster of a level-1 text y = y and its derivations: where a collision is plausible.
+//   targets of the cluster of x:      every id x {nil | compat, "b1"}, x also with "x"
+//   targets of the cluster of x|b:    (x, b) -- the pair whose encoder input y is --, (y, b') for
+//                                     the named backends b', every derivation of y with a
+//                                     nil | compat backend (with "b1" when it contains '|')
+//   (quick tier: the clusters of x|b at one kind per family and backend, the kinds taking turns)
+//   all of them inside wf_target (checked again by the judge, mode 3), pairwise different
+//   subjects of the property.  Sessions: the cluster of x only (a session subject has no backend).
+//
+// One case per cluster and kind: listener i registered on target i for every target of the
+// table, then one publication per target.  P_C20 clause (c) then decides every ordered pair
+// (listener on A, publication for B != A) of the table at once, on the implementation's own
+// callbacks; clause (a) that every listener got its own message.  The shrinker reduces a failing
+// case to the one registration and the one publication that collide.  Pairs across clusters,
+// families and kinds: the whole family in one table at the thorough tier, seeded samples
+// (c20GenPoolMixed) at both.
+
+var c20PoolBases = []string{"mary jane", "x.y", "Zz Top", "a*b>c", "café", "ab", "??>???", "r1", "a|b"}
+var c20PoolBackends = []string{"b1", "x"}
+
+func c20Derived(y string) []string {
+	out := []string{
+		base64.StdEncoding.EncodeToString([]byte(y)),
+		base64.RawStdEncoding.EncodeToString([]byte(y)),
+		base64.URLEncoding.EncodeToString([]byte(y)),
+		base64.RawURLEncoding.EncodeToString([]byte(y)),
+		hex.EncodeToString([]byte(y)),
+		strings.ToUpper(hex.EncodeToString([]byte(y))),
+		strings.ToLower(y),
+		strings.ToUpper(y),
+		url.QueryEscape(y),
+		url.PathEscape(y),
+	}
+	for _, rep := range []string{"_", "-", ""} {
+		r := strings.NewReplacer(" ", rep, ".", rep, "|", rep, "*", rep, ">", rep)
+		out = append(out, r.Replace(y))
+	}
+	return out
+}
+
+type c20TargetSet struct {
+	ts   []c20Target
+	seen map[string]bool
+}
+
+// only targets inside the side condition, every subject of the property once
+func (s *c20TargetSet) add(t c20Target) {
+	if s.seen == nil {
+		s.seen = map[string]bool{}
+	}
+	if t.Id == "" || !t.wf() || s.seen[t.identity()] {
+		return
+	}
+	s.seen[t.identity()] = true
+	s.ts = append(s.ts, t)
+}
+
+// the clusters of the family of base, for one kind
+func c20PoolClusters(base string, kind int) [][]c20Target {
+	var out [][]c20Target
+	nilOrCompat := func(i int) string {
+		if i%2 == 1 {
+			return "!compat"
+		}
+		return ""
+	}
+	if kind == 3 {
+		// ids the loopback client refuses stay in (the registration fails: model and
+		// implementation must agree on that)
+		var s c20TargetSet
+		s.add(c20Target{K: 3, Id: base})
+		for i, d := range c20Derived(base) {
+			s.add(c20Target{K: 3, Id: d, B: []string{"", "b1", "!compat"}[i%3]})
+		}
+		return [][]c20Target{s.ts}
+	}
+	{
+		var s c20TargetSet
+		s.add(c20Target{K: kind, Id: base})
+		s.add(c20Target{K: kind, Id: base, B: "b1"})
+		s.add(c20Target{K: kind, Id: base, B: "x"})
+		for i, d := range c20Derived(base) {
+			s.add(c20Target{K: kind, Id: d, B: nilOrCompat(i)})
+			s.add(c20Target{K: kind, Id: d, B: "b1"})
+		}
+		out = append(out, s.ts)
+	}
+	for _, b := range c20PoolBackends {
+		y := base + "|" + b
+		var s c20TargetSet
+		s.add(c20Target{K: kind, Id: base, B: b})
+		for _, b2 := range c20PoolBackends {
+			s.add(c20Target{K: kind, Id: y, B: b2})
+		}
+		for i, d := range c20Derived(y) {
+			if strings.Contains(d, "|") {
+				s.add(c20Target{K: kind, Id: d, B: "b1"})
+			} else {
+				s.add(c20Target{K: kind, Id: d, B: nilOrCompat(i)})
+			}
+		}
+		out = append(out, s.ts)
+	}
+	return out
+}
+
+// the whole family in one table
+func c20PoolTargets(base string, kind int) []c20Target {
+	var s c20TargetSet
+	for _, cl := range c20PoolClusters(base, kind) {
+		for _, t := range cl {
+			s.add(t)
+		}
+	}
+	return s.ts
+}
+
+// listener i on target i, then one publication per target: every ordered pair of the table
+// is a cross-delivery test
+func c20CrossCase(id int, gen string, ts []c20Target) *c20Case {
+	c := &c20Case{Id: id, Mode: 3, Gen: gen, NL: len(ts), Targets: ts}
+	for i := range ts {
+		c.Ops = append(c.Ops, c20Op{K: "reg", T: i, L: i})
+	}
+	for i := range ts {
+		c.Ops = append(c.Ops, c20Op{K: "pub", T: i, M: i + 1})
+	}
+	return c
+}
+
+// quick tier: the cluster of x for every family and kind; the clusters of x|b (collisions across
+// backends) for every family and backend at one kind each, the kinds taking turns over the
+// families (every kind runs six of them).  thorough: all of them, and the whole families.
+func c20DirectedPool(id int, families bool) []*c20Case {
+	var cs []*c20Case
+	for fi, base := range c20PoolBases {
+		for kind := 0; kind < 4; kind++ {
+			for ci, cl := range c20PoolClusters(base, kind) {
+				if ci > 0 && !families && (fi+ci-1)%3 != kind {
+					continue
+				}
+				cs = append(cs, c20CrossCase(id, "pool-cluster", cl))
+				id++
+			}
+			if families && kind < 3 {
+				cs = append(cs, c20CrossCase(id, "pool-family", c20PoolTargets(base, kind)))
+				id++
+			}
+		}
+	}
+	return cs
+}
+
+var c20PoolAll []c20Target
+
+func c20PoolEverything() []c20Target {
+	if c20PoolAll == nil {
+		for _, base := range c20PoolBases {
+			for kind := 0; kind < 4; kind++ {
+				c20PoolAll = append(c20PoolAll, c20PoolTargets(base, kind)...)
+			}
+		}
+	}
+	return c20PoolAll
+}
+
+// seeded: targets from the whole pool (across families and kinds), a listener per target,
+// publications in random order, some listeners leaving and coming back in between
+func c20GenPoolMixed(r *vrng, id int) *c20Case {
+	all := c20PoolEverything()
+	n := 6 + r.intn(9)
+	var ts []c20Target
+	seen := map[string]bool{}
+	// half of the table from one family and kind (where collisions are plausible), the rest from anywhere
+	base, kind := pick(r, c20PoolBases), r.intn(3)
+	fam := c20PoolTargets(base, kind)
+	for len(ts) < n {
+		var t c20Target
+		if len(ts) < n/2 {
+			t = pick(r, fam)
+		} else {
+			t = pick(r, all)
+		}
+		if seen[t.identity()] {
+			continue
+		}
+		seen[t.identity()] = true
+		ts = append(ts, t)
+	}
+	c := &c20Case{Id: id, Mode: 3, Gen: "pool-mixed", NL: n, Targets: ts}
+	for i := range ts {
+		c.Ops = append(c.Ops, c20Op{K: "reg", T: i, L: i})
+	}
+	reg := make([]bool, n)
+	for i := range reg {
+		reg[i] = true
+	}
+	m := 1
+	for k := 0; k < 2*n; k++ {
+		t := r.intn(n)
+		switch x := r.intn(100); {
+		case x < 70:
+			c.Ops = append(c.Ops, c20Op{K: "pub", T: t, M: m})
+			m++
+		case x < 88:
+			if reg[t] {
+				c.Ops = append(c.Ops, c20Op{K: "unreg", T: t, L: t})
+			} else {
+				c.Ops = append(c.Ops, c20Op{K: "reg", T: t, L: t})
+			}
+			reg[t] = !reg[t]
+		default:
+			c.Ops = append(c.Ops, c20Op{K: "digest"})
+		}
+	}
+	return c
+}
+
 // ---- the scenario ---------------------------------------------------------------------------
 
 func c20Emit(sink *caseSink, c *c20Case, res c20Result) {
@@ -1167,6 +1431,7 @@ func c20KeyTable(r *vrng, n int) string {
 		}
 		rows = append(rows, fmt.Sprintf("(%d, %s, %s, %s)", t.K, bytesOf(t.Id), bcoq, bytesOf(t.subject())))
 	}
+	// (the subjects of the collision pool are compared by the judge of their cases: key_mismatch)
 	return "From Coq Require Import List Arith NArith String.\nFrom Verif Require Import corr.Run_C20.\nImport ListNotations.\n" +
 		"Definition result := Eval vm_compute in key_mismatches [\n" + strings.Join(rows, ";\n") + "\n].\nPrint result.\n"
 }
@@ -1224,8 +1489,19 @@ func TestVerifC20(t *testing.T) {
 			cases = append(cases, c20GenConc(newVrng(env.seed, uint64(id)), id))
 			id++
 		}
+		// the collision pool (ids from 7000000: the streams above stay what they were)
+		cases = append(cases, c20DirectedPool(7000000, env.thorough())...)
+		nMixed := 24
+		if env.thorough() {
+			nMixed = 600
+		}
+		for i := 0; i < nMixed; i++ {
+			pid := 7001000 + i
+			cases = append(cases, c20GenPoolMixed(newVrng(env.seed, uint64(pid)), pid))
+		}
 	}
 	t0 := time.Now()
+	poolTargets := 0
 	for _, c := range cases {
 		var res c20Result
 		if c.Mode == 2 {
@@ -1234,8 +1510,17 @@ func TestVerifC20(t *testing.T) {
 			res = c20RunSeq(c)
 		}
 		c20Emit(sink, c, res)
+		// the large tables are judged in smaller files (the files are evaluated in parallel)
+		if c.Gen == "pool-family" {
+			sink.flush()
+		} else if c.Gen == "pool-cluster" {
+			if poolTargets += len(c.Targets); poolTargets >= 200 {
+				sink.flush()
+				poolTargets = 0
+			}
+		}
 	}
 	sink.extraFile("keys", c20KeyTable(newVrng(env.seed, 777777), 150))
 	sink.stats.Extra = map[string]float64{"harness_seconds": time.Since(t0).Seconds()}
-	sink.close("real asyncEventsNats over the real LoopbackNatsClient: seeded sequential scripts (publish/register/unregister on the four subject kinds, overlapping subjects, blocking callbacks, 64-slot overflow) run to quiescence after each call and replayed on the model; concurrent runs (publishers and registering/unregistering listeners) judged by P_C20; non-trivial = at least 3 callbacks; distinct = distinct event sequences")
+	sink.close("real asyncEventsNats over the real LoopbackNatsClient: seeded sequential scripts (publish/register/unregister on the four subject kinds, overlapping subjects, blocking callbacks, 64-slot overflow; collision pool: ids with their base64 / hex / separator / case / id|backend derivations as ids of their own, a listener per target and a publication per target, every ordered pair judged by P_C20 clause 3) run to quiescence after each call and replayed on the model; concurrent runs (publishers and registering/unregistering listeners) judged by P_C20; non-trivial = at least 3 callbacks; distinct = distinct event sequences")
 }
